@@ -787,7 +787,17 @@ impl Element {
                                 }
                                 ExternalTagKind::Script => AttrPrefixKind::Module,
                             },
-                            (ElementKind::Slot { .. }, "name") => AttrPrefixKind::SlotName,
+                            // (slot attribute names are converted to camel case, which drops a
+                            // trailing dash: `name-` must not become a slot value called `name`)
+                            (ElementKind::Slot { .. }, x) if dash_to_camel(x) == "name" => {
+                                AttrPrefixKind::SlotName
+                            }
+                            (ElementKind::Slot { .. }, x) if dash_to_camel(x) == "id" => {
+                                AttrPrefixKind::Id
+                            }
+                            (ElementKind::Slot { .. }, x) if dash_to_camel(x) == "slot" => {
+                                AttrPrefixKind::Slot
+                            }
                             (_, "id") => AttrPrefixKind::Id,
                             (_, "slot") => AttrPrefixKind::Slot,
                             (ElementKind::Normal { .. }, "class") => AttrPrefixKind::ClassString,
